@@ -11,7 +11,10 @@ INPUT_CAP, OUTPUT_CAP = 10, 3
 
 
 def rand_msg(rng):
-    """(header, body); empty headers and empty bodies are frequent on purpose"""
+    """(header, body); empty headers and empty bodies are frequent on purpose, and so is the message with both
+    empty: it is PushMessage::default(), i.e. what an empty cell of the INPUT / OUTPUT ring buffers holds"""
+    if rng.random() < 0.12:
+        return ([], [])
     h = [] if rng.random() < 0.25 else [rng.randrange(-3, 10) for _ in range(rng.randrange(1, 4))]
     b = [] if rng.random() < 0.25 else [rng.random() < 0.5 for _ in range(rng.randrange(1, 6))]
     return (h, b)
